@@ -307,7 +307,7 @@ def _numeric_vs_reference(pid, fam, t, st: Stats, want_flags, labels_filter):
                             continue
                         if not within(d, dref, tol):
                             st.violation(case(t, env, f"share={share},{mlabel}", label, mpmath.nstr(dref, 20), o,
-                                              f"d/d{v} = {mpmath.nstr(dref, 15)} (difference quotient, 400 bits), "
+                                              f"d/d{v} = {mpmath.nstr(dref, 15)} (difference quotient, 640 bits), "
                                               f"observed {d!r}, tolerance scale S={mpmath.nstr(S, 6)}", {"variable": v}))
                         else:
                             with mp.workprec(100):
@@ -326,12 +326,45 @@ def c03_term(fam, t, st):
 
 def c04_term(fam, t, st):
     _numeric_vs_reference("C04", fam, t, st, None, C04_LABELS)
+    _interleaved_gradient(t, st)
+
+
+def _interleaved_gradient(t, st: Stats):
+    """Reverse-mode gradients taken on an object that is in use: for consecutive grid points p, q the same
+    expression object is evaluated at p, differentiated (forward mode) at q through a Partial that holds it,
+    and only then asked for LocatedDifferential(e, p) — the gradient must still be the one at p."""
+    vs = sorted(M.variables(t))
+    if not vs or M.size(t) < 2:
+        return
+    grid = M.grid_for(vs)
+    e = A.build(t)
+    v = vs[0]
+    P = Partial(e, v)
+    for p, q in zip(grid, grid[1:] + grid[:1]):
+        memo = {}
+        r, width, range_ok = sub_status(t, p, memo)
+        A.outcome(lambda: e.at(pt(p)))
+        A.outcome(lambda: P.at(pt(q)))
+        o = A.outcome(lambda: LocatedDifferential(e, pt(p)).component(v))
+        st.inc("transitions", 3)
+        if r.status != "ok" or not range_ok:
+            continue
+        ref = reference_partial(t, p, v, memo, Stats())
+        if ref is None:
+            continue
+        dref, S, tol = ref
+        st.inc("interleaved_gradients_judged")
+        if o[0] != "val" or not A.is_finite_real(o[1]) or not within(o[1], dref, tol):
+            st.violation(case(t, p, "persistent object", "e.at(p); Partial(e, v).at(q); LocatedDifferential(e, p).component(v)",
+                              mpmath.nstr(dref, 17), o,
+                              f"after e.at(p) and Partial(e, {v}).at({q}) the gradient at p is {o}, true partial {mpmath.nstr(dref, 12)}",
+                              {"variable": v, "q": jsonable(q)}))
 
 
 DERIV_ASSUME = ASSUME_COMMON + [
-    "reference derivative = symmetric difference quotient of the 400-bit reference evaluator, h = 2^-120",
-    "comparison tolerance 2^-35 * (S + |d|) + 2^-150 with S the absolute-value-AD scale; pairs with a sub-term "
-    "enclosure of relative width > 2^-40 are counted as skipped_illconditioned, not judged",
+    "reference derivative = symmetric difference quotient of the 640-bit reference evaluator, h = 2^-200",
+    "comparison tolerance 4 x interval-AD conditioning width + 2^-35 * (S + |d|) + 2^-150 with S the absolute-value-AD "
+    "scale; triples whose conditioning width exceeds 2^-30 * (S + |d|) are counted as skipped_illconditioned, not judged",
     "exactness clause applied to the polynomial fragment at integer / +-0.5 inputs when every sub-term value is a small dyadic rational",
 ]
 
